@@ -112,6 +112,8 @@ struct Tr {
     fs_cleanup_seen: bool,
     call_t: Ns,
     recvs_since_burst: u32,
+    /// cumulative fault weight at this worker's last progress event (its retry budget is per window)
+    fw_mark: u32,
 }
 
 pub struct XferMon {
@@ -126,6 +128,8 @@ pub struct XferMon {
     /// C04: sum of the fault weights injected so far
     fault_weight: u32,
     final_ack_faulted: BTreeMap<SocketAddr, bool>,
+    /// clients whose ERROR datagram has reached a server endpoint
+    error_at_server: BTreeMap<SocketAddr, bool>,
     pub probes: BTreeMap<&'static str, u64>,
     inconclusive: bool,
     pub states: std::collections::BTreeSet<u64>,
@@ -175,6 +179,7 @@ impl XferMon {
             dup,
             fault_weight: 0,
             final_ack_faulted: BTreeMap::new(),
+            error_at_server: BTreeMap::new(),
             probes: BTreeMap::new(),
             inconclusive: false,
             states: Default::default(),
@@ -248,6 +253,7 @@ impl XferMon {
                 fs_cleanup_seen: false,
                 call_t: 0,
                 recvs_since_burst: 0,
+                fw_mark: self.fault_weight,
             },
         );
         true
@@ -285,6 +291,7 @@ impl XferMon {
         let kind = self.specs[spec_i].kind;
         let rules = self.rules;
         let dupn = self.dup;
+        let fw_now = self.fault_weight;
         let n_final = self.n_final(&self.tr[&task]);
         let content = self.specs[spec_i].content.clone();
         let path = self.specs[spec_i].path.clone();
@@ -444,6 +451,9 @@ impl XferMon {
                     if rules.c09 && d > 0 {
                         probes.push("ack_cadence_measured");
                     }
+                    if d > 0 {
+                        t.fw_mark = fw_now;
+                    }
                     t.acked_last = k;
                     t.since_ack = 0;
                     t.ack_due = false;
@@ -468,6 +478,8 @@ impl XferMon {
         }
         let rules = self.rules;
         let dupn = self.dup;
+        let fw_now = self.fault_weight;
+        let err_at_server = *self.error_at_server.get(&self.tr[&task].x).unwrap_or(&false);
         let n_final = self.n_final(&self.tr[&task]);
         let kind = self.specs[self.tr[&task].spec].kind;
         let mut probes: Vec<&'static str> = vec![];
@@ -512,6 +524,9 @@ impl XferMon {
                         }
                         probes.push("receive_timeout_measured");
                     }
+                    if rules.c07 && viol.is_none() && err_at_server && matches!(r, WRecv::Timeout) && !t.error_seen {
+                        viol = Some(("error_not_acted_on".into(), format!("the peer's ERROR reached the server, yet task{task} waited through a whole receive timeout instead of ending at once")));
+                    }
                     t.consecutive_fail += 1;
                     t.fails_in_window += 1;
                     t.max_fails_in_window = t.max_fails_in_window.max(t.fails_in_window);
@@ -555,6 +570,7 @@ impl XferMon {
                                         }
                                     }
                                     t.acked = k;
+                                    t.fw_mark = fw_now;
                                     t.last_recv = LastRecv::ValidAck;
                                     t.consecutive_fail = 0;
                                     t.fails_in_window = 0;
@@ -630,7 +646,8 @@ impl XferMon {
         let rules = self.rules;
         let kind = self.specs[self.tr[&task].spec].kind;
         let spec = self.specs[self.tr[&task].spec].clone();
-        let fw = self.fault_weight;
+        // the retry budget is per window: only faults injected since the worker's last progress count
+        let fw = self.fault_weight - self.tr[&task].fw_mark.min(self.fault_weight);
         let faf = *self.final_ack_faulted.get(&spec.client).unwrap_or(&false);
         let mut viol: Option<(String, String)> = None;
         let mut inconclusive = false;
@@ -673,7 +690,7 @@ impl XferMon {
                     viol = Some((
                         "server_side_failed_below_budget".into(),
                         format!(
-                            "task{task} ({:?} for {}) ended without completing{} although the injected faults can account for at most {fw} failed receive attempts (< 6); worst window saw {} failed attempts; last receive {:?}",
+                            "task{task} ({:?} for {}) ended without completing{} although the faults injected since its last progress can account for at most {fw} failed receive attempts (< 6); worst window saw {} failed attempts; last receive {:?}",
                             kind,
                             spec.client,
                             if let Some(p) = panic { format!(" (panic: {p})") } else { String::new() },
@@ -720,11 +737,19 @@ impl Monitor for XferMon {
         }
         match ev {
             Ev::Send { actor, dst, data, fate, .. } => {
+                if let Actor::Task(_) = actor {
+                    // judge the datagram first: a fault on an ACK belongs to the window that follows it
+                    let r = self.on_server_send(st, *actor, *dst, data);
+                    if *fate != Fate::Deliver {
+                        self.note_fault(*fate);
+                    }
+                    return r;
+                }
                 if *fate != Fate::Deliver {
                     self.note_fault(*fate);
                 }
                 match actor {
-                    Actor::Task(_) => return self.on_server_send(st, *actor, *dst, data),
+                    Actor::Task(_) => {}
                     Actor::Peer(p) => {
                         // track whether the reader's final ACK may have been lost
                         if *fate != Fate::Deliver {
@@ -745,6 +770,15 @@ impl Monitor for XferMon {
                         }
                     }
                     _ => {}
+                }
+            }
+            Ev::Deliver { src, data, to_peer: None, .. } => {
+                if self.rules.c07 && self.spec_of(*src).is_some() {
+                    if let Some(Pkt::Error { code, .. }) = rfc::decode(data) {
+                        if code <= 7 {
+                            self.error_at_server.insert(*src, true);
+                        }
+                    }
                 }
             }
             Ev::Stall { .. } => self.fault_weight += 4 + self.specs.iter().map(|s| s.timeout_ratio).max().unwrap_or(1).max(1),
